@@ -13,7 +13,7 @@ From Coq Require Import List NArith Bool Arith Lia.
 Import ListNotations.
 From PV Require Import Regex Base AstDefs AstSpec AstImpl GenTables NodeModel Generator ClimbProofs ClimbComplete GenParen GenBinop.
 From PV Require Import LexTables ParserTables PyRepr ParserBase ParserDecl ParserMain LexerProofs TableProofs.
-From PV Require Import BinaryRefine ExprShape UnaryShape CoordProofs ElseProofs StreamLib RoundTrip RoundTripGen RoundTripX StmtTrip.
+From PV Require Import BinaryRefine ExprShape UnaryShape CoordProofs ElseProofs StreamLib RoundTrip RoundTripGen TypeName RoundTripX StmtTrip.
 Open Scope nat_scope.
 
 Section TD.
@@ -95,6 +95,38 @@ Proof.
   rewrite Hk. destruct (is_type_in (Some v) (scopes P s)); reflexivity.
 Qed.
 End TD.
+
+(* ---- `( T ) ( x )`: a cast when T was delivered as a type name, a call when it was delivered as an identifier ---- *)
+Section CastOrCall.
+Variable P : Type.
+Definition ptpx (k: kind) (T x: str) : list (kind * str) :=
+  [(K_LPAREN, s2l "("); (k, T); (K_RPAREN, s2l ")"); (K_LPAREN, s2l "("); (K_ID, x); (K_RPAREN, s2l ")")].
+
+Lemma id_expr : forall a, ExprS P [(K_ID, a)] (VNode C_ID [VStr a] None) /\ first_ok [(K_ID, a)].
+Proof.
+  intros a. pose proof (T_all P false 1 (XId a) (le_n _) I) as HT. split; [exact (T_expr P false (XId a) HT)|exact (proj1 HT)].
+Qed.
+
+Theorem paren_T_paren_x_type : forall T x,
+  CastS P (ptpx K_TYPEID T x) (VNode C_Cast [tn_emb [T]; VNode C_ID [VStr x] None] None).
+Proof.
+  intros T x. destruct (id_expr x) as [HE Hf].
+  exact (cast_type P [(K_TYPEID, T)] (parkv [(K_ID, x)]) _ (typeid_tyok P T) (first_ok_parkv _ Hf) (paren_to_cast P _ _ Hf HE)).
+Qed.
+
+Theorem paren_T_paren_x_object : forall T x,
+  CastS P (ptpx K_ID T x) (VNode C_FuncCall [VNode C_ID [VStr T] None; VNode C_ExprList [VList [VNode C_ID [VStr x] None]] None] None).
+Proof.
+  intros T x. destruct (id_expr T) as [HET HfT]. destruct (id_expr x) as [HEx Hfx].
+  pose proof (T_all P false 1 (XId x) (le_n _) I) as HTx.
+  assert (HA: AsgS P [(K_ID, x)] (VNode C_ID [VStr x] None)) by (destruct HTx as (_ & _ & _ & _ & HA & _); exact (HA eq_refl)).
+  pose proof (R_call P (parkv [(K_ID, T)]) (VNode C_ID [VStr T] None) [(K_ID, x)] (VNode C_ID [VStr x] None) [] C_ID [VStr T] None C_ID [VStr x] None
+                eq_refl eq_refl (R_paren P _ _ HET) Hfx HA (Forall_nil _)) as HR.
+  change (ptpx K_ID T x) with (parkv [(K_ID, T)] ++ (K_LPAREN, s2l "(") :: commas ([(K_ID, x)] :: map fst (@nil (list (kind * str) * value unit))) ++ [(K_RPAREN, s2l ")")]).
+  apply chain_cast; [apply first_ok_app; apply first_ok_parkv; exact HfT| |exact HR].
+  apply head_idlp_app. apply head_idlp_parkv. exact HfT.
+Qed.
+End CastOrCall.
 
 (* ---- non-vacuity: `T * x ;` in a block where T is a typedef / an object ---- *)
 Definition td_items : list (pitem nat) :=
